@@ -388,6 +388,10 @@ EXTRAS = [
     ("x:iter_raw", ("apply", ("iter", [_R([1, 2]), ("opt", "A")]), ("fn", "f_list")), [A3]),
     ("x:fa_raw", ("fa", "g0", [_R([1, 2]), ("opt", "A")], {"k": _R({"a": [1]})}), [A3]),
     ("x:coalesce_raw", ("coalesce", [("opt", "A"), _R([1, 2])]), [A3]),
+    # a coalesce member that holds a body AHEAD of the option that may be missing: when the member cannot be
+    # evaluated it is not selected, and its body is not needed
+    ("x:coalesce_body_then_opt", ("coalesce", [("list", [("ds", "xb0", {"params": [], "cache": "none"}), ("opt", "A")]), ("ds", "xfb", {"params": []})]), [A3]),
+    ("x:coalesce_body_step_opt", ("coalesce", [("apply", ("ds", "xb1", {"params": [], "cache": "none"}), ("step", "st0", {"y": ("opt", "A")})), ("val", "fb")]), [A3]),
     ("x:switch_raw", ("switch", ("opt", "A", ("val", 0)), [(1, _R([1, 2])), (2, _R("two"))], _R(None)), [A3]),
     ("x:case_raw", ("case", ("opt", "A", ("val", 0)), [(("fn", "p_eq:1"), _R([1, 2]))], _R(0)), [A3]),
     ("x:map_raw", ("apply", ("mapvalues", ("opt", "A"), [("A", _R([1, 2]))]), ("fn", "f_list")), []),
